@@ -43,7 +43,23 @@ func (l *yieldLoader) Exists(p string) bool {
 
 func (l *yieldLoader) Open(p string) (io.ReadCloser, error) {
 	l.s.Yield("loader:Open")
-	return l.inner.Open(p)
+	rc, err := l.inner.Open(p)
+	if err != nil || rc == nil {
+		return rc, err
+	}
+	return &yieldReader{rc, l.s}, nil
+}
+
+// yieldReader: every Read of an opened template is a scheduling point too (an edit of the loader
+// can land between Open and Read, and between two Reads)
+type yieldReader struct {
+	io.ReadCloser
+	s *simrt.Sched
+}
+
+func (r *yieldReader) Read(b []byte) (int, error) {
+	r.s.Yield("loader:Read")
+	return r.ReadCloser.Read(b)
 }
 
 // lockedCache is a user-supplied cache as an application would write it
@@ -230,6 +246,21 @@ func (litRenderer) Render(rt *jet.Runtime) { rt.Writer.Write([]byte("(rnd)")) }
 
 const globalsTmpl = "/zglobals.jet"
 const dumpTmpl = "/zdump.jet"
+
+// reentrantGlobal is a value whose Go-syntax form is computed with the help of the Set it is a global of.
+type reentrantGlobal struct {
+	set  *jet.Set
+	mode int
+}
+
+func (g reentrantGlobal) GoString() string {
+	if g.mode == 1 {
+		g.set.AddGlobal("gside", "side")
+	} else {
+		g.set.LookupGlobal("gc")
+	}
+	return "reentrant-global"
+}
 const recTmpl = "/zrec.jet"
 const recDepth = 60 // two clients at this depth have more than a hundred activations of one include statement in flight
 
@@ -365,6 +396,14 @@ func RunC11(env *sim.Env) {
 		// a global that was registered with a nil value: dump() fails on it - inside its critical section
 		set.AddGlobal("gnil", nil)
 		env.Stat("probe:global_registered_with_nil_value", 1)
+	}
+
+	if t.Choose(3) == 2 {
+		// a global whose %#v form calls back into the Set (a GoStringer that looks a global up, or
+		// registers one again): dump() must not hold the Set's globals lock while it formats values
+		set.AddGlobal("gside", "side")
+		set.AddGlobal("gfmt", reentrantGlobal{set, t.Choose(2)})
+		env.Stat("probe:global_whose_formatting_calls_back_into_the_set", 1)
 	}
 
 	// ---- operation lists (drawn before the clients start: clients never touch the tape)
